@@ -58,22 +58,21 @@ def setcommentF (o : Opt) (c : Bytes) (fail : Option Nat) : FOut :=
   if fail == some 0 then ⟨o, false, 1⟩
   else ⟨.mk o.info { o.flags with comments := true, modified := true } o.subs o.vals (some c), true, 1⟩
 
-/-- `cfg_setopt` for a callback-free int / float / bool / string option whose text converts -/
+/-- `cfg_setopt` for a callback-free int / float / bool / string option whose text converts.
+A string is copied FIRST (request 0), before the option is touched (fix F42: the text may be a string the option
+itself owns); then the cell (`cfg_addval`, two requests) when one is needed -/
 def setoptPlainF (o : Opt) (cv : Conv) (fail : Option Nat) : FOut :=
-  let o1 := (dropDefaults o).1
-  let append := o1.vals.isEmpty || o1.flags.multi || o1.flags.list
-  let cell0 : Val := match cv with | .str _ => .str none | .int n => .int n | .flt b => .flt b | .bool b => .bool b | _ => .int 0
-  let r : FOut := if append then addvalF o1 cell0 fail else ⟨o1, true, 0⟩
-  if !r.ok then r
+  let pre : Nat := match cv with | .str _ => 1 | _ => 0
+  if pre == 1 && fail == some 0 then ⟨o, false, 1⟩            -- strdup failed: nothing was touched
   else
-    let idx := if append then o1.vals.length else 0
-    match cv with
-    | .str s =>
-      -- free(val->string); val->string = strdup(s): on failure the cell holds NULL
-      if shiftFail fail r.allocs == some 0 then
-        ⟨.mk r.opt.info r.opt.flags r.opt.subs (listSet r.opt.vals idx (.str none)) r.opt.comment, false, r.allocs + 1⟩
-      else ⟨.mk r.opt.info { r.opt.flags with modified := true } r.opt.subs (listSet r.opt.vals idx (.str (some s))) r.opt.comment, true, r.allocs + 1⟩
-    | _ => ⟨.mk r.opt.info { r.opt.flags with modified := true } r.opt.subs (listSet r.opt.vals idx cell0) r.opt.comment, true, r.allocs⟩
+    let o1 := (dropDefaults o).1
+    let append := o1.vals.isEmpty || o1.flags.multi || o1.flags.list
+    let cell0 : Val := match cv with | .str s => .str (some s) | .int n => .int n | .flt b => .flt b | .bool b => .bool b | _ => .int 0
+    let r : FOut := if append then addvalF o1 cell0 (shiftFail fail pre) else ⟨o1, true, 0⟩
+    if !r.ok then ⟨r.opt, false, pre + r.allocs⟩
+    else
+      let idx := if append then o1.vals.length else 0
+      ⟨.mk r.opt.info { r.opt.flags with modified := true } r.opt.subs (listSet r.opt.vals idx cell0) r.opt.comment, true, pre + r.allocs⟩
 
 /-- every cell of an option has the constructor of its type (a string cell may be NULL) -/
 def cellsOk (o : Opt) : Bool :=
